@@ -90,6 +90,7 @@ def plan(seed, overrides=None):
     t_off = rr.choice([0.05, 1e-3, 2.0])
     recipes["tgrid1"] = {"kind": "ndarray", "v": enc([t_off + t_end * k / (n_t - 1) for k in range(n_t)])}   # does not start at 0
     recipes["wlist2"] = {"kind": "value", "v": enc([x * 2 + 1 for x in C_dec(recipes["wlist"]["v"])])}
+    recipes["wlist3"] = {"kind": "value", "v": enc(rr.choice([[100.0, 0, 10.0, 10.0], [10, 2.5, 0], [314.0, 1, 1.0, -0.0]]))}   # unsorted, duplicates, ints
     for c in cirs:
         ids = G.circuit_ids(recipes[c])
         recipes[c + "_inputs"] = {"kind": "inputs", "map": {i: rr.choice([{"fn": "const", "c": 1.0}, {"fn": "step", "t0": t_end / 3, "x1": 2.0},
@@ -308,7 +309,7 @@ def _script(r, client, world, counter):
                     if r.random() < 0.3:
                         a["w_res"] = r.choice([1e-3, 1.0])
                 elif r.random() < 0.5:
-                    a["w"] = P(r.choice(["wlist", "wlist", "wlist2"]))
+                    a["w"] = P(r.choice(["wlist", "wlist", "wlist2", "wlist3"]))
                 h = add("cir.transform", a)
                 if f == "transform" and "w" in a and r.random() < 0.7:
                     add("cir.transform", {"cir": P(cir), "f": "transform"})
